@@ -87,7 +87,7 @@ CHECKS = {
              'an instance iff all components match (table over match flags); select_one/select_many/NavChain()/NavOneChain() '
              'share one pipeline and MetaModel delegates unchanged; OrderBy is a stable sort with reverse only on request; '
              'navigate is the direct link or the ordered duplicate-free two-hop union. Result sets of concrete states are not decided.',
-        note=TRUST + 'OrderedSet behaves as an insertion-ordered set (C17, not claimed).'),
+        note=TRUST + 'OrderedSet behaves as an insertion-ordered set (decided by C17 and, for the partner sets, by C09-SETS).'),
     'C13': dict(
         cat='other', sec='DESIGN.md 2/C13',
         technique='exact exponential-ambiguity test on regex automata + all-paths rules on token rules (newline reachability decided on the automaton) + decorator coverage (static)',
@@ -113,6 +113,18 @@ CHECKS = {
              'is the receiving instance (None for class-based operations); return_value is written only by the return evaluator '
              'and read only by run_*; enumerators are numbered along R56 and constants converted by their modelled type.',
         note=TRUST + 'values computed by nested/recursive calls are not decided, only that each call has its own scope.'),
+    'C17': dict(
+        cat='other', sec='DESIGN.md 2/C17',
+        technique='shape analysis on a symbolic heap (bounded, with a locality check that justifies the bound) + abstract table for __eq__ + class inventory against the MutableSet mixins (static)',
+        text='Inductive argument over operation histories: the representation invariant of OrderedSet (forward chain from the '
+             'sentinel = members of the dict, backward chain = its reverse) is established by __init__ and preserved, with the set '
+             'effect the property states, by add / discard / pop from every well-formed list of up to three members and every key '
+             'position; add / discard touch only the sentinel, the affected node and its neighbours, so the result carries over to '
+             'lists of any length; __iter__, __reversed__, __len__, QuerySet.first / last enumerate the members in (reverse) '
+             'insertion order; iteration with removal of the visited element neither skips nor repeats; __eq__ is length plus '
+             'element sequence; every other operation is a MutableSet mixin over these primitives and none is overridden.  '
+             'The interpreter executes the source of the methods on symbolic node identities; nothing of the repository runs.',
+        note=TRUST + 'the documented behaviour of the collections.abc.MutableSet mixins, hashability of the elements.'),
     'C18': dict(
         cat='other', sec='DESIGN.md 2/C18',
         technique='escape/ownership analysis of statement data handed to the metamodel API + freshness rules (static)',
@@ -185,8 +197,6 @@ NOT_APPLICABLE = {
     'C16': 'Result order and termination of sort_reflexive depend on the run-time contents of the link dictionaries '
            '(a data invariant: the association is one-to-one); no clause of the property is visible in the shape of '
            'the code, so no sound static rule decides it.',
-    'C17': 'Functional correctness of a hash-map + circular doubly linked list over operation histories needs '
-           'heap-shape proof or state exploration (other technique families), not a rule over syntax, CFG or call graph.',
 }
 
 ALL = ['C%02d' % i for i in range(1, 21)]
